@@ -1,15 +1,38 @@
 from pyvc.runner import Prop, Fn, Lem, Ground, Native
-from props.rewrite_common import ASSUMPTIONS
+from props.rewrite_common import ASSUMPTIONS, SEM_ASSUMPTIONS, SEM_LEMMAS, C09_LEMMAS
 
+_R = 'hpl.rewrite.'
+PRED = ['HplPredicateExpression', 'HplVacuousTruth', 'HplContradiction']
 PROP = Prop(
     'C14',
-    modules=[],
-    tasks=[],
+    modules=['contracts.rewrite_c10', 'contracts.rewrite_c13'],
+    tasks=[
+        *[Lem(l) for l in SEM_LEMMAS],
+        *[Lem(l) for l in C09_LEMMAS],
+        # the safety obligations (tag C14) of the functions under contract for C09 / C10 / C13: on every path only
+        # the exception classes their contracts declare can escape
+        Fn(_R + 'empty_test', safety_tag='C14'),
+        Fn(_R + '_split_and_quantifier', safety_tag='C14'),
+        Fn(_R + '_split_and_not', safety_tag='C14'),
+        Fn(_R + '_and_presplit_transform', safety_tag='C14'),
+        Fn(_R + '_split_and_expr', safety_tag='C14'),
+        Fn(_R + 'split_and', safety_tag='C14'),
+        Fn(_R + '_refactor_ref_expr', safety_tag='C14'),
+        Fn(_R + '_split_ref_operator', safety_tag='C14'),
+        Fn(_R + '_split_ref_negation', safety_tag='C14'),
+        Fn(_R + '_split_ref_quantifier', safety_tag='C14'),
+        *[Fn('hpl.ast.predicates.HplPredicate.negate', classes=PRED, safety_tag='C14')],
+        *[Fn('hpl.ast.predicates.HplPredicate.join', classes=PRED, safety_tag='C14')],
+    ],
     bounded=[Native('bounded.rewrite_native.totality')],
-    level='exploration',
-    explanation='BOUNDED ONLY at this commit: the real function(s) compared with the reference semantics on the expression '
-                'corpus x a grid of valuations (labelled bounded, nothing counted as proved); contracts for the rewriting '
-                'helpers are being added function by function.',
-    assumptions=ASSUMPTIONS,
-    trusted_base=['bounded.evaluator reference semantics', 'CPython'],
+    level='other',
+    explanation='PROVED for the functions under contract (split_and chain, refactor_reference helper chain, negate/join): on '
+                'every path no exception other than the declared ones escapes - no AssertionError (the asserts about '
+                'simplified shapes hold), AttributeError, IndexError, KeyError; the not/and/or constructor calls cannot raise; '
+                'result kinds as documented (list of boolean expressions; pair of expressions; predicate). DECLARED MAY-RAISE, '
+                'not excluded: TypeError / HplSanityError from the quantifier and predicate constructors on rebuilt bodies. '
+                'BOUNDED ONLY: simplify, the this/var replacements, canonical_form, the public typeguard-checked wrappers, and '
+                'everything above on the corpus (every built-in function x argument shapes). Open findings F13, F17.',
+    assumptions=ASSUMPTIONS + SEM_ASSUMPTIONS,
+    trusted_base=['z3 5.1.0', 'cvc5 1.0.3', 'pyvc symbolic executor', 'bounded.evaluator reference semantics', 'CPython'],
 )
